@@ -13,6 +13,8 @@ PARTIAL = [
     "A2.4 (basis_function_one) = Cox-de Boor is proved on the domain except where it is false as worded: the last function at the last knot returns 1 (half-open Cox-de Boor: 0; proved equal to the A2.2 entry of the last span for end-clamped vectors), and the first function at U[0] returns 1 also outside the domain of an unclamped vector / for start multiplicity > p+1 (hypotheses U p <= u, U 0 < U (p+1))",
     "A2.5 (basis_function_ders_one, literal model) = column of the A2.3 specification table is proved for order <= degree on half-open spans; at the last knot A2.5 returns zeros (no boundary special case, unlike A2.4) - covered only by the closed form",
 ]
+PARTIAL.append("F-03b (open, recorded): for a knot vector whose END knot is repeated more than p+1 times, A2.4 (basis_function_one) at u = the last knot returns 1 for the LAST function (the special case of The NURBS Book, `i == m-p-1 and u == U[m]`), which has empty support there, and 0 for the last function with non-empty support, whose Cox-de Boor left limit (= the A2.2 entry on the span the repaired search finds) is 1; the A2.4 sentence above ('the last function at the last knot returns 1 ... proved equal to the A2.2 entry of the last span for end-clamped vectors') is about end-clamped vectors with EXACTLY p+1 equal end knots (KnotsOk: non-empty last span), where the last function is the one with the value 1; end multiplicity > p+1 is outside the model, judged by the exact oracle of the stream empty-last-span (kind span-end, every function index) and classified as F-03b; unclamped vectors with U_{n-1} = U_n (end-of-domain multiplicity <= p) are judged too and A2.4 is right there")
+PARTIAL.append("knot vectors with an empty last domain span are outside the model (theorems assume KnotsOk); the repaired step-back of the span searches (F-01b) is checked by the exact oracle only (stream empty-last-span: span-lin / span-bin with a model line strictly inside the domain, kind span-end without one at u = U_n; the driver ops that search a span / evaluate answer ERR when the span the model finds is empty)")
 ASSUMPTIONS = ["distinct knots are further apart than the tolerances 1e-5 (binary search) / 1e-7 (multiplicity), except in the tolerance-probe stream"]
 
 
@@ -75,6 +77,20 @@ def gen(rng, tier):
         else:
             d['i'] = rng.randint(k0 - p, k0) if rng.random() < .8 else rng.randint(0, n - 1)
             out.append(Case('basisone', "basisone %d %s %d %s" % (p, U, d['i'], fr(u)), d, tags=('full-multiplicity',)))
+    # empty-last-span (F-01b, repaired): knot vectors with U_{n-1} = U_n.  Strictly inside the domain: correspondence
+    # (model line) + oracle; AT u = U_n the repaired find_span_linear / find_span_binsearch step back to the last
+    # NON-EMPTY span, which the Lean model does not have (theorems assume KnotsOk): no model line, the exact oracle alone
+    # demands the last non-empty span and the Cox-de Boor left-limit basis values there
+    for _ in range(24 if tier == 'quick' else 300):
+        p = rng.randint(1, 5)
+        kv, n = G.knots_empty_last(rng, p)
+        U = show_list(kv)
+        inner = sorted(set(x for x in kv[p:n + 1] if x < kv[n]))
+        u = rng.choice(inner) if rng.random() < .4 else kv[p] + (kv[n] - kv[p]) * F(rng.randint(0, 99), 100)
+        kind = rng.choice(['lin', 'bin'])
+        out.append(Case('span-' + kind, "span %s %d %d %s %s" % (kind, p, n, U, fr(u)), dict(p=p, n=n, kv=kv, u=u), tags=('empty-last-span', 'inside')))
+        G.count('empty_last_span', ('span', 'p+2' if kv[n] == kv[-1] else 'end-multiplicity'))
+        out.append(Case('span-end', None, dict(p=p, n=n, kv=kv, u=kv[n]), tags=('empty-last-span', 'at-end')))
     # A2.5 basis_function_ders_one: active functions, arbitrary functions, order up to the degree and
     # (guard stream) above it
     for _ in range(70 if tier == 'quick' else 1200):
@@ -160,6 +176,35 @@ def oracle(c):
     from geomdl import helpers, knotvector
     d = c.data
     k = c.kind
+    if k == 'span-end':
+        # u = U_n of a knot vector with an empty last span: both searches return the last NON-EMPTY span, A2.2 on it gives
+        # the Cox-de Boor left-limit values, and A2.4 (basis_function_one) gives the same value for EVERY function index
+        # (an end knot repeated more than p+1 times: recorded finding F-03b, see classify)
+        p, n, kv, u = d['p'], d['n'], d['kv'], d['u']
+        U = _kv(d); uu = q(u)
+        ref = G.span_of(kv, p, n, u)
+        ks = helpers.find_span_linear(p, U, n, uu)
+        if ks != ref:
+            return "find_span_linear returns %d at the end of a domain with an empty last span, the last non-empty span is %d" % (ks, ref)
+        kb = helpers.find_span_binsearch(p, U, n, uu)
+        if kb != ref:
+            return "find_span_binsearch returns %d at the end of a domain with an empty last span, the last non-empty span is %d" % (kb, ref)
+        try:
+            N = helpers.basis_function(p, U, ks, uu)
+        except Exception as e:
+            return "basis_function on the span found at the domain end raised %s" % type(e).__name__
+        if sum(N, q(0)) != 1:
+            return "basis values at the domain end sum to %s" % fr(sum(N, q(0)))
+        for r in range(p + 1):
+            want = G.cox_de_boor(kv, p, ks - p + r, u, kv[n])
+            if N[r] != want:
+                return "basis_function[%d] = %s at the domain end, the Cox-de Boor left limit is %s" % (r, fr(N[r]), fr(want))
+        for i in range(n):
+            got = helpers.basis_function_one(p, U, i, uu)
+            want = G.cox_de_boor(kv, p, i, u, kv[n])
+            if got != want:
+                return "basis_function_one(i=%d) = %s at the domain end, the Cox-de Boor left limit (= the A2.2 entry) is %s" % (i, fr(got), fr(want))
+        return None
     if k in ('span-lin', 'span-bin', 'basis', 'basisall', 'basisone', 'bders', 'bdersone', 'mult'):
         p, n, kv, u = d['p'], d['n'], d['kv'], d['u']
         U = _kv(d); uu = q(u)
@@ -291,6 +336,15 @@ def classify(c, why):
         near = [t for t in kv[p + 1:n] if t < end and end - t <= TOL_SPAN]
         if near and abs(end - u) <= TOL_SPAN:
             return 'F-17b'
+    if why.startswith('basis_function_one(i=') and 'kv' in d and 'u' in d:
+        # F-03b: A2.4's special case `i == m-p-1 and u == U[m]` returns 1 for the LAST function; when the end knot is
+        # repeated more than p+1 times that function has empty support and the value belongs to the last function with
+        # non-empty support.  Exactly this pattern: u = last knot, end multiplicity > p+1, function index >= that one
+        kv, p, n, u = d['kv'], d['p'], d['n'], d['u']
+        cnt = sum(1 for x in kv if x == kv[-1])
+        i = int(why[len('basis_function_one(i='):].split(')')[0])
+        if u == kv[-1] and cnt > p + 1 and n - cnt + p <= i <= n - 1:
+            return 'F-03b'
     return None
 
 
@@ -301,4 +355,10 @@ def witness(fid):
         u = q(F(999992, 1000000))
         a = helpers.find_span_linear(2, kv, 5, u); b = helpers.find_span_binsearch(2, kv, 5, u)
         return "linear=%d binary=%d" % (a, b) if a != b else None
+    if fid == 'F-03b':
+        from geomdl import helpers
+        kv = qs([0, 0, F(1, 4), 1, 1, 1])
+        a = helpers.basis_function_one(1, kv, 3, q(1)); b = helpers.basis_function_one(1, kv, 2, q(1))
+        N = helpers.basis_function(1, kv, helpers.find_span_linear(1, kv, 4, q(1)), q(1))
+        return "basis_function_one: N_3(1) = %s, N_2(1) = %s; A2.2 on the span found: %s" % (fr(a), fr(b), show_list(N)) if (a, b) != (0, 1) else None
     return None
